@@ -476,11 +476,17 @@ def malformed(line):
     return None
 
 
-def int32_guard(line):
+def oversize(line):
     n, ys = line["n"], [y for e in line["ev"][1:-1] for o in e["vals"] for y in o]
     N = sum(len(e["vals"][0]) if e["vals"] else 0 for e in line["ev"][1:-1])
     m = max([abs(y) for y in ys] + [1])
-    if N * N * m * m > INT32 or N * N * n * n > INT32 // 8:
+    return (N, n, m) if (N * N * m * m > INT32 or N * N * n * n > INT32 // 8) else None
+
+
+def int32_guard(line):
+    big = oversize(line)
+    if big:
+        N, n, m = big
         raise common.MachineryError("trace too large for TLC's 32-bit integers (N=%d, n=%d, |y|<=%d)" % (N, n, m))
 
 
@@ -545,6 +551,9 @@ def rerun(repro):
             why = malformed(ln)
             if why:
                 t.add("trace:malformed:" + why, "no counterpart in the specification", dict(line=ln))
+            elif oversize(ln) and len(out["calls"]) != -(-cfg["S"] // chains_of(cfg)):
+                t.add("trace:rejected:Draw", "the call made %d draws, the schedule ceil(S / C') has %d"
+                      % (len(out["calls"]), -(-cfg["S"] // chains_of(cfg))), dict(cfg=cfg))
             else:
                 _, acc, matched = validate_traces([ln])
                 if not acc[0]:
